@@ -3,16 +3,20 @@ import SpecterModel.C44.Model
 /-! C44 line-protocol driver (stateful; `reset` starts a case).
 
 ```
-init <tunnels>             => <router> <proxies>        client created on that configuration
-rebuild <tunnels>          => <router> <proxies>        RebuildTunnels
-reload <tunnels>           => <router> <proxies>        config file rewritten + doReload
-unpublish <host>           => <router> <proxies>        UnpublishTunnel (RPC succeeds)
-wbegin <tunnels>           => <router> <proxies>        RebuildTunnels stopped between closeOutdatedProxies and buildRouter
-wend <hosts|_>             => <router> <proxies>        … released and run to completion; hosts = connections that waited and are resolved now
-incoming <host> <seq|win>  => <obs> <router> <proxies>  one HTTP connection through handleIncomingDelegation
-diff <old> <new>           => <hostnames>               diffTunnels (stateless)
+init <tunnels>             => <router> <proxies> <config>        client created on that configuration
+rebuild <tunnels>          => <router> <proxies> <config>        RebuildTunnels
+reload <tunnels>           => <router> <proxies> <config>        config file rewritten (possibly with a list that
+                                                                 validation rejects) + doReload
+reloadx <missing|garbage>  => <router> <proxies> <config>        config file removed / overwritten with undecodable text + doReload
+unpublish <host>           => <router> <proxies> <config>        UnpublishTunnel (RPC succeeds)
+wbegin <tunnels>           => <router> <proxies> <config>        RebuildTunnels stopped between closeOutdatedProxies and buildRouter
+wend <hosts|_>             => <router> <proxies> <config>        … released and run to completion; hosts = connections that waited and are resolved now
+incoming <host> <seq|win>  => <obs> <router> <proxies> <config>  one HTTP connection through handleIncomingDelegation
+diff <old> <new>           => <hostnames>                        diffTunnels (stateless)
 ```
-tunnel = `host;target;insecure(0|1);timeout(s);headerHost;headerMode`, lists `,`-separated, `_` = empty.
+tunnel = `host;target;insecure(0|1);timeout(s);headerHost;headerMode`, lists `,`-separated, `_` = empty;
+targets are symbolic (`b…` plain backends, `s…` TLS backends, `!…` strings `Config.validate` rejects).
+<config> = the tunnel list the client itself holds (`Configuration.Tunnels`, in order) at that moment.
 obs = `nf` (not forwarded) | `blocked` (waits for the change in progress: the locked semantics;
 the harness then reports the connection again, as served, after `wend`) |
 `T=<backend>;H=<Host header the backend saw>;R=<ReadHeaderTimeout s>` | `bad;R=…` (bad gateway).
@@ -63,11 +67,13 @@ structure D where
 
 def sortedKeys (d : D) : List String := (d.keys.eraseDups).mergeSort (fun a b => decide (a ≤ b))
 
+def renderTunnel (t : Tunnel) : String := t.host ++ ";" ++ renderRoute t.route
+
 def dump (d : D) : String :=
   let ks := sortedKeys d
   let r := ks.filterMap fun k => (d.s.router k).map fun x => k ++ "=" ++ renderRoute x
   let p := ks.filterMap fun k => (d.s.proxies k).map fun x => k ++ ":" ++ toString (rht x)
-  renderList r ++ " " ++ renderList p
+  renderList r ++ " " ++ renderList p ++ " " ++ renderList (d.s.tunnels.map renderTunnel)
 
 def addKeys (d : D) (ts : List Tunnel) : List String := ts.map (·.host) ++ d.keys
 
@@ -88,6 +94,7 @@ def step' (d : D) (toks : List String) (rhs : String) : D × Verdict :=
     match parseTunnels t with
     | some ts => let d' : D := ⟨reload d.s ts, addKeys d ts⟩; (d', cmp (dump d') rhs)
     | none => (d, .bad "reload args")
+  | ["reloadx", _kind] => let d' : D := ⟨reloadUnreadable d.s, d.keys⟩; (d', cmp (dump d') rhs)
   | ["wbegin", t] =>
     match parseTunnels t with
     | some ts => let d' : D := ⟨wBegin d.s ts, addKeys d ts⟩; (d', cmp (dump d') rhs)
@@ -111,8 +118,15 @@ def step' (d : D) (toks : List String) (rhs : String) : D × Verdict :=
       let okNow := match d.s.window with
         | none => obs = want
         | some (old, new) => obs = obsStr h ((last old h).map (·.route)) || obs = obsStr h ((last new h).map (·.route))
+      -- the same judgement against the configuration the CLIENT ITSELF holds at that moment (what
+      -- GetCurrentConfig would show): outside a change, a connection must be served as that list says
+      let held : Option String := match d.s.window, (rhs.splitOn " ")[3]? with
+        | none, some tok => (parseTunnels tok).map fun ts => obsStr h ((last ts h).map (·.route))
+        | _, _ => none
       if h ≠ "" && !okNow then
         (d', .spec s!"connection for {h} served as [{obs}] but the current configuration says [{want}]")
+      else if h ≠ "" && (match held with | some w => w != obs | none => false) then
+        (d', .spec s!"connection for {h} served as [{obs}] but the configuration the client holds (Configuration.Tunnels) says [{held.getD ""}]; the last applied configuration says [{want}]")
       else if d.s.window.isSome then
         -- the code as it is resolves under configMu.RLock: a connection must not be resolved while a
         -- change is in progress (the state keeps following the implementation so that later
